@@ -1,6 +1,7 @@
 package main
 
 import (
+	"go/constant"
 	"fmt"
 	"go/token"
 	"go/types"
@@ -56,6 +57,7 @@ func mayAliasTxBuffer(v ssa.Value, depth int) bool {
 }
 
 func c04(c *Ctx) {
+	c04ScansFilterDeadEntries(c, "C04.10/scans-filter-dead-entries")
 	f := c.mustFn("C04/indexSince", idxT+"indexSince")
 	if f != nil {
 		// ---- C04.1 no retained alias of the pooled tx buffer --------------------------------------------------
@@ -664,5 +666,78 @@ func c04ReopenOptions(c *Ctx, r string) {
 	}
 	if n < 15 {
 		c.undecided(r, "floor", fmt.Sprintf("%d option fields read by OpenWith found", n))
+	}
+}
+
+// c04ScansFilterDeadEntries: "prefix lookups and scans return exactly the matching LIVE keys". The key readers of the
+// store hand out every entry of the index, logically deleted and expired ones included, unless the reader spec carries
+// the filters. Every reader the database layer opens over the key-value or sorted-set index for a scan-like operation
+// is built with both filters (sibling agreement: Scan, ZScan, Count).
+func c04ScansFilterDeadEntries(c *Ctx, r string) {
+	n := 0
+	for _, f := range c.allFns {
+		if !fnInPkgs(f, []string{"pkg/database"}) || len(f.Blocks) == 0 {
+			continue
+		}
+		for i, in := range sites(f, func(x ssa.Instruction) bool {
+			cc := callOf(x)
+			return cc != nil && (strings.HasSuffix(calleeName(cc), ").NewKeyReader") || (cc.IsInvoke() && cc.Method.Name() == "NewKeyReader"))
+		}) {
+			args := callOf(in).Args
+			spec := args[len(args)-1]
+			// the spec literal: which fields are stored, and what is stored into Filters
+			var alloc *ssa.Alloc
+			dependsOn(spec, func(v ssa.Value) bool {
+				if a, ok := v.(*ssa.Alloc); ok && structName(a.Type()) == "KeyReaderSpec" {
+					alloc = a
+					return true
+				}
+				return false
+			})
+			if alloc == nil {
+				continue
+			}
+			history := false
+			var filters ssa.Value
+			for _, rf := range *alloc.Referrers() {
+				fa, ok := rf.(*ssa.FieldAddr)
+				if !ok {
+					continue
+				}
+				name := fieldName(fa.X.Type(), fa.Field)
+				for _, r2 := range *fa.Referrers() {
+					if st, ok := r2.(*ssa.Store); ok && st.Addr == fa {
+						switch name {
+						case "Filters":
+							filters = st.Val
+						case "IncludeHistory":
+							if k, ok := st.Val.(*ssa.Const); !ok || k.Value == nil || constant.BoolVal(k.Value) {
+								history = true
+							}
+						}
+					}
+				}
+			}
+			if history {
+				continue // history readers show every version on purpose
+			}
+			n++
+			has := func(name string) bool {
+				return filters != nil && dependsOn(filters, func(v ssa.Value) bool {
+					switch x := v.(type) {
+					case *ssa.Function:
+						return x.Name() == name
+					case *ssa.Global:
+						return x.Name() == name
+					}
+					return false
+				})
+			}
+			c.check(has("IgnoreDeleted") && has("IgnoreExpired"), r, fmt.Sprintf("%s:reader#%d:filters", fnName(f), i), c.pos(in.Pos()), "built with IgnoreDeleted and IgnoreExpired",
+				"a key reader is opened without the IgnoreDeleted / IgnoreExpired filters: logically deleted and expired keys are read (counted, listed) as live ones")
+		}
+	}
+	if n < 3 {
+		c.undecided(r, "floor", fmt.Sprintf("%d key readers opened by pkg/database found (Scan, ZScan, Count confirmed by hand)", n))
 	}
 }
